@@ -14,8 +14,15 @@
   differ only in what the closed class maps to — including the reduction of unanticipated errors to
   address-free text (`strip`: a `*net.OpError` found in the chain is rebuilt without its endpoints).
 * **Logger call sites** (`Site`, `Arg`): the shape of the table the extractor regenerates from the Go
-  sources into `CJ/Gen/LogSites.lean`, and the reviewed tables that say which raw-error origins and
-  which logged expressions are free of client addresses.
+  sources into `CJ/Gen/LogSites.lean` — logger calls, logger prefixes and the string fields of the JSON
+  summaries as sinks — and the reviewed table that says which logged expressions are client addresses.
+* **Where error texts come from** (`Cls`, `Origin`, `Src`, `ErrFn`): an error value is judged by the calls it
+  can come from.  Calls that leave the repository are reviewed by name (`leafClasses`); functions of the
+  repository are summarised by the extractor (`CJ.Gen.errFns`: what each returns — other calls' errors as
+  they are / wrapped / flattened / sanitised, client-derived values formatted into constructed errors) and
+  get the class their sources give them (`rfnCls`; the classes are a certificate checked against these
+  equations).  `generalizeErr` is modelled precisely: it cleans structured errors (`Cls.gen`), not flattened
+  ones (`Cls.flat`) and not errors built from client-derived values.
 * The flow description, the tunnel summary, the registration digest and the expiry record as token lists.
 -/
 namespace CJ.LogTaint
@@ -375,7 +382,9 @@ def leafClasses : List (String × Cls) := [
   ("dtls.Transport.Connect: ctx.Err", .clean), ("dtls.Transport.Connect: reuseport.Dial ⚑", .structured),
   ("dtls.SCTPConn.Read: s.stream.Read", .structured), ("dtls.SCTPConn.Read: =s.readErr", .structured),
   ("dtls.hbConn.Read: =net.ErrClosed", .clean), ("dtls.hbConn.Read: =readBytes.err", .structured),
-  ("dtls.Not1Reader.Read: n1r.r.Read", .structured), ("transports.PrefixConn.Read: pc.r.Read", .structured)
+  ("dtls.Not1Reader.Read: n1r.r.Read", .structured), ("transports.PrefixConn.Read: pc.r.Read", .structured),
+  ("dtls.SCTPConn.Write: s.stream.Write ⚑", .structured), ("dtls.hbConn.Write: c.stream.Write ⚑", .structured),
+  ("dtls.hbConn.Close: c.stream.Close", .structured)
 ]
 
 /-- Reviewed: calls whose receiver is an interface value that is known not to hold a type of this repository,
